@@ -1079,6 +1079,24 @@ class PandasModelBase(
             on_b = [scratch_col]
             left[scratch_col] = 1
             right[scratch_col] = 1
+        # in a SQL join a null key matches nothing, pandas.merge pairs null keys with each other:
+        # when both sides have rows with a null key, those rows get a marker no other row has
+        # (positive on the left, negative on the right, 0 elsewhere) and the marker joins the keys
+        null_key_col = None
+        null_left = left[on_a].isnull().any(axis=1).to_numpy()
+        null_right = right[on_b].isnull().any(axis=1).to_numpy()
+        if null_left.any() and null_right.any():
+            null_key_col = _unused_column_name(
+                "data_algebra_temp_null_key_col", names_in_use
+            )
+            left[null_key_col] = numpy.where(
+                null_left, numpy.arange(left.shape[0]) + 1, 0
+            )
+            right[null_key_col] = numpy.where(
+                null_right, -(numpy.arange(right.shape[0]) + 1), 0
+            )
+            on_a = on_a + [null_key_col]
+            on_b = on_b + [null_key_col]
         # noinspection PyUnresolvedReferences
         res = self.pd.merge(
             left=left,
@@ -1092,6 +1110,8 @@ class PandasModelBase(
         self.drop_indices(res)
         if scratch_col is not None:
             del res[scratch_col]
+        if null_key_col is not None:
+            del res[null_key_col]
         for c in common_cols:
             # merge folds a same-named key pair into one column; every other shared column has a suffixed right copy
             if (c + right_suffix) in res.columns:
